@@ -56,7 +56,7 @@ func ZZ_C12_Expiry() {
 		if len(st.Pool()) == 1 {
 			pre.Check("c12.expiry", e, bal0[i])
 		} else {
-			vrt.Assert("c12.expiry.removed[several expired at once]", inPool == 0 && inBatch == 0 || e.Token.Amount.Add(e.Fee.Amount).Add(e.ValCommission.Amount).IsZero())
+			vrt.Assert("c12.expiry.removed[several expired at once]", inPool == 0 && inBatch == 0 || keeper.ZZHubValue(k, ctx, chain, e).Sign() == 0)
 		}
 	}
 	for _, b := range st.Batches() {
